@@ -51,10 +51,8 @@ class Covariance(MahalanobisMixin, TransformerMixin):
     """
     X = self._prepare_inputs(X, ensure_min_samples=2)
     M = np.atleast_2d(np.cov(X, rowvar=False))
-    if M.size == 1:
-      M = 1. / M
-    else:
-      M = scipy.linalg.pinvh(M)
+    # (also for a single feature: the pseudo-inverse of a zero variance is 0)
+    M = scipy.linalg.pinvh(M)
 
     self.components_ = components_from_metric(np.atleast_2d(M))
     return self
